@@ -88,6 +88,8 @@ def kind_of(f, n, depth=0):
             return 'ZERO'
         if name.split('.')[-1] in ('ones', 'ones_like'):
             return 'ODD'
+        if name.split('.')[-1] in ('full', 'full_like') and len(n.args) >= 2:      # numpy.full(shape, c): an array of the constant c
+            return kind_of(f, n.args[1], depth + 1)
         if isinstance(fn, ast.Attribute) and fn.attr in PRESERVE_METHODS:
             return kind_of(f, fn.value, depth + 1)
         if name in ('int', 'float') and n.args:
